@@ -471,6 +471,18 @@ fn seq_limit_dims(_tier: &str) -> Vec<u32> {
     vec![fe_cfgs(), 8]
 }
 
+/// C06: the long runs of C07, kept clear of the open finding `c07.wrap-overlap` (TCP re-issue
+/// storms next to the largest initial sequence make consecutive rounds share numbers, and a
+/// re-delivered response of the preceding round then counts as an answer: the window moves
+/// on an answer that was none) - that corner is C07's to report, as in C03's `inject-long`.
+fn g_long_sched(t: &mut Tape) -> Scenario {
+    let mut sc = g_long(t);
+    if sc.tracer.proto == crate::scenario::Proto::Tcp {
+        sc.tracer.initial_seq = sc.tracer.initial_seq.min(63_999);
+    }
+    sc
+}
+
 /// C06: a quiet, stable path traced long enough for the sequence to restart (an initial
 /// sequence close to the maximum, or the Dublin/IPv6 regime that restarts every 512 numbers):
 /// what the tracer has learnt about the target's distance outlives the restart.
@@ -552,6 +564,35 @@ fn g_tcp_backlog(t: &mut Tape) -> Scenario {
     sc.stable = false;
     sc.epoch_liveness = false;
     sc
+}
+
+/// C10: the far end of the ttl range - first-ttl 230..=252 on a path that is a little longer,
+/// max-ttl 254, the default window or the largest one: the table starts at first-ttl and ends
+/// at the target.
+fn g_far_end_ttl(t: &mut Tape) -> Scenario {
+    let mut sc = fault_enum_base(t.draw(fe_cfgs()));
+    let first = 230 + t.draw(23);
+    let dist = (first + 1 + t.draw(2)).min(254);
+    sc.tracer.first_ttl = first as u8;
+    sc.tracer.max_ttl = 254;
+    sc.tracer.max_inflight = [24u8, 255, 200, 1][t.draw(4) as usize];
+    sc.tracer.rounds = 3;
+    let v6 = sc.tracer.v6;
+    let template = sc.net.paths[0].routers[0].clone();
+    sc.net.paths[0].routers = (1..dist)
+        .map(|h| {
+            let mut r = template.clone();
+            r.addr = crate::scenario::router_addr(v6, h, 0, 0);
+            r.silent = false;
+            r
+        })
+        .collect();
+    sc.stable = true;
+    sc
+}
+
+fn far_end_dims(_tier: &str) -> Vec<u32> {
+    vec![fe_cfgs(), 23, 2, 4]
 }
 
 /// C05: the state is cleared in the middle of a trace with many short rounds; the figures
@@ -1529,8 +1570,9 @@ pub fn registry() -> Vec<PropertyCheck> {
             rule: "seeded scenarios over all first/max ttl, max-inflight, path lengths and arrival orders; online send-discipline monitor over the interleaved sequence of wire records and hand-overs; non-trivial/distinct as for C01",
             families: vec![
                 Family { name: "swarm", gen: g_base, oracle: oracle::c06, opts: opts_light(), quick_runs: 200_000, thorough_runs: 8_000_000, must_reach: &["reach.probe_reached_target"], enum_dims: None },
+                Family { name: "full-cycle", gen: g_full_cycle, oracle: oracle::c06, opts: opts_light(), quick_runs: 48, thorough_runs: 1_000, must_reach: &[], enum_dims: None },
                 Family { name: "stable-wrap", gen: g_stable_wrap, oracle: oracle::c06, opts: opts_light(), quick_runs: 3_000, thorough_runs: 100_000, must_reach: &[], enum_dims: None },
-                Family { name: "long-runs", gen: g_long, oracle: oracle::c06, opts: opts_light(), quick_runs: 6_000, thorough_runs: 300_000, must_reach: &[], enum_dims: None },
+                Family { name: "long-runs", gen: g_long_sched, oracle: oracle::c06, opts: opts_light(), quick_runs: 6_000, thorough_runs: 300_000, must_reach: &[], enum_dims: None },
                 Family { name: "socket-faults", gen: g_sockfaults, oracle: oracle::c06, opts: opts_light(), quick_runs: 50_000, thorough_runs: 1_500_000, must_reach: &[], enum_dims: None },
             ],
             assumptions: vec![ASSUME_SIM, ASSUME_CLOCK],
@@ -1569,6 +1611,7 @@ pub fn registry() -> Vec<PropertyCheck> {
                 Family { name: "fault-free", gen: g_quiet, oracle: oracle::c10, opts: opts_full(), quick_runs: 40_000, thorough_runs: 1_500_000, must_reach: &[], enum_dims: None },
                 Family { name: "quiet-route-change", gen: g_quiet_change, oracle: oracle::c10, opts: opts_full(), quick_runs: 60_000, thorough_runs: 2_000_000, must_reach: &["fault.route_change"], enum_dims: None },
                 Family { name: "socket-faults", gen: g_sockfaults, oracle: oracle::c10, opts: opts_full(), quick_runs: 40_000, thorough_runs: 1_500_000, must_reach: &[], enum_dims: None },
+                Family { name: "far-end-ttl", gen: g_far_end_ttl, oracle: oracle::c10, opts: opts_full(), quick_runs: 0, thorough_runs: 0, must_reach: &[], enum_dims: Some(far_end_dims) },
                 Family { name: "clear-midway", gen: g_clear_midway, oracle: oracle::c10, opts: opts_full(), quick_runs: 30_000, thorough_runs: 1_000_000, must_reach: &[], enum_dims: None },
                 Family { name: "synthetic-rounds", gen: g_synth, oracle: oracle::c10, opts: opts_full(), quick_runs: 20_000, thorough_runs: 600_000, must_reach: &["reach.synthetic_round"], enum_dims: None },
             ],
